@@ -17,6 +17,15 @@
 (*   subs       GSUB 1.1 rules <<in, out>> (constant delta);                *)
 (*   pairs      GPOS 2.1 entries <<left, right, value>>.                    *)
 (*                                                                         *)
+(* A lookup may consist of several subtables that overlap on their keys;    *)
+(* OpenType applies the first subtable that matches.  The model carries a   *)
+(* second subtable for each kind -- pairs2 (second GPOS 2.1 subtable), subs2 *)
+(* (second GSUB 1.1 subtable, own delta), and ligsplit (the first ligsplit  *)
+(* rules of ligs form the first GSUB 4.1 subtable, the rest the second) --  *)
+(* and the relation is stated on the *effective* rules: EffPairs, EffSubs   *)
+(* (first subtable wins per key) and ligs in priority order.  A subsetter   *)
+(* is free to merge or keep subtables as long as the effect is the same.    *)
+(*                                                                         *)
 (* Glyph ids are 0-based, sequences 1-based: At(s, g) == s[g + 1].          *)
 (*                                                                         *)
 (* Two readings of "any extra glyphs needed by composites or ligatures" are *)
@@ -37,7 +46,12 @@ RuleGlyphs(r) == ToSet(r)
 RuleIn(r)    == ToSet(SubSeq(r, 1, Len(r) - 1))
 RuleOut(r)   == r[Len(r)]
 LigRules(F)  == ToSet(F.ligs)
-SubRules(F)  == ToSet(F.subs)
+SubRules(F)  == ToSet(F.subs) \cup ToSet(F.subs2)      \* raw (for the upper bound MaxSet)
+
+\* effective rules of a lookup with two subtables: the first subtable that has the key wins
+EffPairs(F) == F.pairs \o SelectSeq(F.pairs2, LAMBDA e :
+                 \A i \in 1..Len(F.pairs) : <<F.pairs[i][1], F.pairs[i][2]>> # <<e[1], e[2]>>)
+EffSubs(F)  == F.subs \o SelectSeq(F.subs2, LAMBDA e : \A i \in 1..Len(F.subs) : F.subs[i][1] # e[1])
 
 (***************************************************************************)
 (* Closures.                                                                *)
@@ -92,6 +106,13 @@ WellFormed(F) ==
   /\ Inj([i \in 1..Len(F.subs) |-> F.subs[i][1]])
   /\ \A i \in 1..Len(F.pairs) : {F.pairs[i][1], F.pairs[i][2]} \subseteq Gids(F)
   /\ Inj([i \in 1..Len(F.pairs) |-> <<F.pairs[i][1], F.pairs[i][2]>>])
+  /\ \A i \in 1..Len(F.subs2) : Len(F.subs2[i]) = 2 /\ RuleGlyphs(F.subs2[i]) \subseteq Gids(F)
+  /\ \A i, j \in 1..Len(F.subs2) : F.subs2[i][2] - F.subs2[i][1] = F.subs2[j][2] - F.subs2[j][1]
+  /\ Inj([i \in 1..Len(F.subs2) |-> F.subs2[i][1]])
+  /\ \A i \in 1..Len(F.pairs2) : {F.pairs2[i][1], F.pairs2[i][2]} \subseteq Gids(F)
+  /\ Inj([i \in 1..Len(F.pairs2) |-> <<F.pairs2[i][1], F.pairs2[i][2]>>])
+  /\ F.ligsplit \in 0..Len(F.ligs)
+  /\ (F.subs2 # << >> => F.subs # << >>) /\ (F.pairs2 # << >> => F.pairs # << >>)
   /\ F.gsub \in {"none", "l", "s", "ls", "sl"}
   /\ (F.ligs # << >> => F.gsub \in {"l", "ls", "sl"})
   /\ (F.subs # << >> => F.gsub \in {"s", "ls", "sl"})
@@ -110,6 +131,9 @@ GoodList(F, list) ==
 (* enc = <<code, gid>> for the non-zero entries, ligs = <<feat, in.., out>>,*)
 (* subs = <<feat, in, out>>, pairs = <<feat, left, right, value>> where     *)
 (* feat is the tag list of the features that reach the rule's lookup.       *)
+(* subs and pairs are the effective rules of each lookup (the first         *)
+(* subtable that has the key wins), ligs the rules of each first glyph in   *)
+(* priority order (subtable order, then order within the ligature set).     *)
 (***************************************************************************)
 GlyphOf(F, g) ==
   [out |-> At(F.out, g), w |-> At(F.w, g), name |-> At(F.name, g), cid |-> At(F.cid, g),
@@ -141,7 +165,7 @@ Holds(c, F, list, P, old, S, m) ==
       subt   == Subtables(F)
       CmExp(k, X) == { <<e[1], m[e[2]]>> : e \in { x \in ToSet(subt[k]) : x[2] \in X } }
       \* --- pairs
-      PrExp(X) == { <<m[e[1]], m[e[2]], e[3]>> : e \in { x \in ToSet(F.pairs) : {x[1], x[2]} \subseteq X } }
+      PrExp(X) == { <<m[e[1]], m[e[2]], e[3]>> : e \in { x \in ToSet(EffPairs(F)) : {x[1], x[2]} \subseteq X } }
       prGot  == { Strip(t) : t \in ToSet(P.pairs) }
       \* --- ligatures
       lgKept == SelectSeq(F.ligs, LAMBDA r : In(r, S))
@@ -149,7 +173,7 @@ Holds(c, F, list, P, old, S, m) ==
       lgGot  == MapSeq(P.ligs, Strip)
       LgExpSet(X) == { Re(r) : r \in { q \in ToSet(F.ligs) : In(q, X) } }
       \* --- single substitutions
-      sbExp  == { Re(r) : r \in { q \in ToSet(F.subs) : In(q, S) } }
+      sbExp  == { Re(r) : r \in { q \in ToSet(EffSubs(F)) : In(q, S) } }
   IN
   CASE c = "prefix"  -> /\ N >= Len(list)
                         /\ \A i \in 1..Len(list) : i <= N => old[i] = list[i]
@@ -257,8 +281,8 @@ Build(F, gs) ==
        hasenc |-> F.hasenc,
        enc    |-> MapSeq(SelectSeq(F.enc, LAMBDA e : e[2] \in S), LAMBDA e : <<e[1], m[e[2]]>>),
        ligs   |-> MapSeq(SelectSeq(F.ligs, In), LAMBDA r : <<"liga">> \o Re(r)),
-       subs   |-> MapSeq(SelectSeq(F.subs, In), LAMBDA r : <<"smcp">> \o Re(r)),
-       pairs  |-> MapSeq(SelectSeq(F.pairs, LAMBDA e : {e[1], e[2]} \subseteq S),
+       subs   |-> MapSeq(SelectSeq(EffSubs(F), In), LAMBDA r : <<"smcp">> \o Re(r)),
+       pairs  |-> MapSeq(SelectSeq(EffPairs(F), LAMBDA e : {e[1], e[2]} \subseteq S),
                          LAMBDA e : <<"kern", m[e[1]], m[e[2]], e[3]>>) ]
 
 \* the content of a result in *old* glyph ids (independent of the order of the extras)
@@ -280,6 +304,6 @@ CanonOf(F, S) ==
     cmaps |-> MapSeq(Subtables(F), LAMBDA s : { e \in ToSet(s) : e[2] \in S }),
     enc   |-> { e \in ToSet(F.enc) : e[2] \in S },
     ligs  |-> { r \in ToSet(F.ligs) : ToSet(r) \subseteq S },
-    subs  |-> { r \in ToSet(F.subs) : ToSet(r) \subseteq S },
-    pairs |-> { e \in ToSet(F.pairs) : {e[1], e[2]} \subseteq S } ]
+    subs  |-> { r \in ToSet(EffSubs(F)) : ToSet(r) \subseteq S },
+    pairs |-> { e \in ToSet(EffPairs(F)) : {e[1], e[2]} \subseteq S } ]
 =============================================================================
